@@ -19,7 +19,7 @@ def run(tier):
     # names of every length with an escape at every block offset, matched against another spelling of the same name
     recs += M.gen_pairs(ctx, 2, 2, 4, "Gen_Schema_esckeys", smode="esckeys")
     # beyond the exhaustive bound: random growth + random edits (TLC simulation)
-    recs += M.gen_rand(ctx, 6 if q else 60, 8, 3) + M.gen_rand(ctx, 3 if q else 30, 12, 5, layv=0 if q else 2)
+    recs += M.gen_rand(ctx, 6 if q else 60, 8, 3, schema_model=False) + M.gen_rand(ctx, 3 if q else 30, 12, 5, layv=0 if q else 2, schema_model=False)
     rows = [[str(i), hexs(r["e"]), hexs(r["v"]), T.canon(r["lazy"])] for i, r in enumerate(recs)]
     fails = M.run_merge(ctx, "lazy", rows, builds, None, "")
     for b, idx, kind, detail in fails:
